@@ -5,7 +5,7 @@
    premise.  That premise, and the IAST equations themselves, are checked on every result the implementation returns.
    Property theorems only, each closed by `exact` + Print Assumptions. *)
 From Coq Require Import Reals Lra List Bool QArith Permutation.
-From PG Require Import Lib.Num Lib.Py Iast.IastSpec Iast.IastGlue Iast.IastTheorems Iast.IastInverse Iast.IastExamples Iast.IastWrapPre Gen.IastWrapGen Iast.IastWrappers.
+From PG Require Import Lib.Num Lib.Py Iast.IastSpec Iast.IastGlue Iast.IastTheorems Iast.IastInverse Iast.IastExamples Iast.IastWrapPre Gen.IastWrapGen Iast.IastWrappers Iast.PointPL.
 Import ListNotations.
 Open Scope R_scope.
 
@@ -181,3 +181,28 @@ Proof. vm_compute. reflexivity. Qed.
 Example sweep_fails_at_the_refused_point :
   G_iast_binary_svp RNum demo_point demo_cs [1 / 2; 1 / 2] [2; 4; 20; 6] = Err CalculationError.
 Proof. exact demo_sweep_fails_at_the_refused_point. Qed.
+
+(* ---- the pure-component isotherm GIVEN BY THE DATA of a point isotherm (what IAST must use whatever was asked of the object before):
+   the piecewise-linear interpolant of the measured rows, Iast/PointPL.v; executed (QNum) beside loading_at on objects with a history *)
+(* a segment passes through the two measured points it joins *)
+Theorem point_isotherm_segment_through_rows : forall p1 l1 p2 l2 : R, p1 < p2 -> seg RNum p1 l1 p2 l2 p1 = l1 /\ seg RNum p1 l1 p2 l2 p2 = l2.
+Proof. exact seg_ends. Qed.
+Print Assumptions point_isotherm_segment_through_rows.
+(* between two measured points the loading is monotone when the two measured loadings are *)
+Theorem point_isotherm_segment_monotone : forall p1 l1 p2 l2 p q : R, p1 < p2 -> l1 <= l2 -> p <= q -> seg RNum p1 l1 p2 l2 p <= seg RNum p1 l1 p2 l2 q.
+Proof. exact seg_monotone. Qed.
+Print Assumptions point_isotherm_segment_monotone.
+(* for rows in increasing pressure: whenever the interpolant is defined its value lies within any bounds of the measured loadings
+   (no overshoot - unlike a cubic or quadratic spline through the same rows) *)
+Theorem point_isotherm_interpolant_within_data : forall (d : list (R * R)) a b p v,
+  increasing d -> Forall (fun r => a <= snd r <= b) d -> pl_at RNum d p = Some v -> a <= v <= b.
+Proof. exact pl_at_hull. Qed.
+Print Assumptions point_isotherm_interpolant_within_data.
+(* at the first measured pressure it returns the measured loading (unless the next row does not lie at a higher pressure) *)
+Theorem point_isotherm_interpolant_first_row : forall (p1 l1 : R) r,
+  pl_at RNum ((p1, l1) :: r) p1 = Some l1 \/ exists p2 l2 r', r = (p2, l2) :: r' /\ ~ p1 < p2.
+Proof. exact pl_at_first_row. Qed.
+Print Assumptions point_isotherm_interpolant_first_row.
+(* the hypotheses are satisfiable; outside the measured range there is no value *)
+Example point_isotherm_interpolant_example : pl_at RNum [(1, 2); (3, 6); (4, 7)] 2 = Some 4 /\ pl_at RNum [(1, 2); (3, 6); (4, 7)] 5 = None.
+Proof. exact pl_example. Qed.
